@@ -143,7 +143,8 @@ fn nonce(i: usize) -> Nonce {
     b.into()
 }
 
-const N_MSGS: usize = 6;
+const N_MSGS: usize = 9;
+const N_DATA_FROM: usize = 4;
 
 /// Things the generator wants to try soon (probes after reconciliation steps).
 #[derive(Clone)]
@@ -204,6 +205,8 @@ impl Hist {
                     },
                 );
             }
+            // nonces 0..N_DATA_FROM: coin messages; N_DATA_FROM..N_MSGS-1: data messages;
+            // the last nonce never exists
             for i in 0..N_MSGS - 1 {
                 c.messages.insert(
                     nonce(i),
@@ -211,6 +214,11 @@ impl Hist {
                         sender: txgen::owner(0),
                         recipient: txgen::owner(rng.gen_range(0..txgen::N_OWNERS)),
                         amount: 20,
+                        data: if i >= N_DATA_FROM {
+                            vec![i as u8; 4]
+                        } else {
+                            vec![]
+                        },
                     },
                 );
             }
@@ -448,7 +456,7 @@ impl Hist {
                 }
                 cands.choose(&mut self.rng).cloned().map(|(u, f, exact)| {
                     let f = if exact { f } else { self.mutate(f, script) };
-                    CoinIn { utxo: u, f }
+                    CoinIn { predicate: false, utxo: u, f }
                 })
             }
             "collide" => {
@@ -460,7 +468,7 @@ impl Hist {
                     .collect();
                 cands
                     .choose(&mut self.rng)
-                    .map(|(u, f)| CoinIn { utxo: *u, f: *f })
+                    .map(|(u, f)| CoinIn { predicate: false, utxo: *u, f: *f })
             }
             "unsettled_out" => {
                 let cands: Vec<_> = self
@@ -476,16 +484,18 @@ impl Hist {
                     .collect();
                 let mutate = chance(&mut self.rng, 15);
                 cands.choose(&mut self.rng).cloned().map(|(u, f)| CoinIn {
+predicate: false,
                     utxo: u,
                     f: if mutate { self.mutate(f, false) } else { f },
                 })
             }
             "handed_out" => handed
                 .choose(&mut self.rng)
-                .map(|(u, f)| CoinIn { utxo: *u, f: *f }),
+                .map(|(u, f)| CoinIn { predicate: false, utxo: *u, f: *f }),
             "spent" => {
                 let cands: Vec<_> = chain.spent_coins.iter().copied().collect();
                 cands.choose(&mut self.rng).map(|u| CoinIn {
+predicate: false,
                     utxo: *u,
                     f: self.spent_fields.get(u).copied().unwrap_or(CoinFields {
                         owner: txgen::owner(0),
@@ -516,7 +526,7 @@ impl Hist {
                 }
                 cands
                     .choose(&mut self.rng)
-                    .map(|(u, f)| CoinIn { utxo: *u, f: *f })
+                    .map(|(u, f)| CoinIn { predicate: false, utxo: *u, f: *f })
             }
             "missing" => {
                 // output of a generated-but-unsubmitted parent (pending pool), or nothing at all
@@ -539,11 +549,12 @@ impl Hist {
                 if !cands.is_empty() && chance(&mut self.rng, 75) {
                     cands
                         .choose(&mut self.rng)
-                        .map(|(u, f)| CoinIn { utxo: *u, f: *f })
+                        .map(|(u, f)| CoinIn { predicate: false, utxo: *u, f: *f })
                 } else {
                     let mut b = [0xEEu8; 32];
                     b[1] = self.rng.gen_range(0..4);
                     Some(CoinIn {
+predicate: false,
                         utxo: UtxoId::new(b.into(), 0),
                         f: CoinFields {
                             owner: txgen::owner(0),
@@ -554,6 +565,7 @@ impl Hist {
                 }
             }
             "chain_mismatch" => fresh.choose(&mut self.rng).cloned().map(|(u, f)| CoinIn {
+predicate: false,
                 utxo: u,
                 f: self.mutate(f, false),
             }),
@@ -562,12 +574,13 @@ impl Hist {
         match pick {
             Some(c) => (c, cat),
             None => match fresh.choose(&mut self.rng) {
-                Some((u, f)) => (CoinIn { utxo: *u, f: *f }, "fresh"),
+                Some((u, f)) => (CoinIn { predicate: false, utxo: *u, f: *f }, "fresh"),
                 None => {
                     let mut b = [0xEFu8; 32];
                     b[1] = self.rng.gen_range(0..8);
                     (
                         CoinIn {
+predicate: false,
                             utxo: UtxoId::new(b.into(), 0),
                             f: CoinFields {
                                 owner: txgen::owner(0),
@@ -582,20 +595,49 @@ impl Hist {
         }
     }
 
-    fn pick_msg(&mut self) -> MsgIn {
+    /// One message input. `allow_data`: scripts only (Create / Blob may not carry
+    /// message data). Mostly the kind that matches the chain message, sometimes the
+    /// other kind or a wrong amount; nonces already used by pooled txs are preferred
+    /// now and then so that every message kind collides with every other.
+    fn pick_msg(&mut self, allow_data: bool) -> MsgIn {
         let chain = self.model.chain.with(|c| c.clone());
-        let n = nonce(self.rng.gen_range(0..N_MSGS));
+        let pooled: Vec<Nonce> = self
+            .snap
+            .txs
+            .values()
+            .flat_map(|t| t.msgs.iter().map(|m| m.nonce))
+            .collect();
+        let n = if !pooled.is_empty() && chance(&mut self.rng, 35) {
+            *pooled.choose(&mut self.rng).expect("nonempty")
+        } else {
+            nonce(self.rng.gen_range(0..N_MSGS))
+        };
         let f = chain.messages.get(&n).cloned().unwrap_or(MsgFields {
             sender: txgen::owner(0),
-            recipient: txgen::owner(0),
+            recipient: txgen::owner(self.rng.gen_range(0..txgen::N_OWNERS)),
             amount: 20,
+            data: if chance(&mut self.rng, 50) {
+                vec![7; 4]
+            } else {
+                vec![]
+            },
         });
         let amount = if chance(&mut self.rng, 8) { 10 } else { f.amount };
+        let mut data = f.data.clone();
+        if chance(&mut self.rng, 10) {
+            // the other kind of input for this nonce
+            data = if data.is_empty() { vec![9; 4] } else { vec![] };
+        }
+        if !allow_data {
+            data = vec![];
+        }
         MsgIn {
             nonce: n,
             sender: f.sender,
             recipient: f.recipient,
             amount,
+            data,
+            predicate: chance(&mut self.rng, 60),
         }
     }
 
@@ -714,6 +756,7 @@ impl Hist {
             let (c, cat) = self.pick_coin(false);
             why = cat;
             coins.push(CoinIn {
+predicate: false,
                 utxo: c.utxo,
                 f: CoinFields {
                     asset: AssetId::BASE,
@@ -721,18 +764,40 @@ impl Hist {
                 },
             });
         }
-        let mut msgs = Vec::new();
-        if chance(&mut self.rng, 15) {
-            msgs.push(self.pick_msg());
+        for c in coins.iter_mut() {
+            c.predicate = chance(&mut self.rng, 60);
         }
-        let mut contracts = Vec::new();
-        if script && chance(&mut self.rng, 22) {
+        let mut msgs: Vec<MsgIn> = Vec::new();
+        let n_msg = match self.rng.gen_range(0..100) {
+            0..=71 => 0,
+            72..=93 => 1,
+            _ => 2,
+        };
+        for _ in 0..n_msg {
+            let m = self.pick_msg(script);
+            if !msgs.iter().any(|x| x.nonce == m.nonce) {
+                msgs.push(m);
+            }
+        }
+        let mut contracts: Vec<ContractId> = Vec::new();
+        if script {
+            let n_contracts = match self.rng.gen_range(0..100) {
+                0..=71 => 0,
+                72..=87 => 1,
+                88..=96 => 2,
+                _ => 3,
+            };
             let alpha = Self::contract_alphabet();
-            contracts.push(*alpha.choose(&mut self.rng).expect("nonempty"));
-            if chance(&mut self.rng, 10) {
-                let mut b = [0xDDu8; 32];
-                b[1] = 1;
-                contracts[0] = b.into();
+            for _ in 0..n_contracts {
+                let mut c = *alpha.choose(&mut self.rng).expect("nonempty");
+                if chance(&mut self.rng, 6) {
+                    let mut b = [0xDDu8; 32];
+                    b[1] = 1;
+                    c = b.into();
+                }
+                if !contracts.contains(&c) {
+                    contracts.push(c);
+                }
             }
         }
         let any_alt = coins.iter().any(|c| c.f.asset != AssetId::BASE);
@@ -799,6 +864,7 @@ impl Hist {
                 change_to,
                 variable,
                 expiration: None,
+                shuffle: self.rng.r#gen(),
             },
             why,
         )
@@ -833,6 +899,7 @@ impl Hist {
             },
             tip: 0,
             coins: vec![CoinIn {
+predicate: false,
                 utxo: c.utxo,
                 f: CoinFields {
                     asset: AssetId::BASE,
@@ -845,6 +912,7 @@ impl Hist {
             change_to: None,
             variable: false,
             expiration: None,
+            shuffle: self.rng.r#gen(),
         };
         let tx = self.fac.build(&spec).expect("fallback tx is valid");
         let info = Arc::new(TxInfo::of(&tx));
@@ -853,9 +921,12 @@ impl Hist {
     }
 
     /// a transaction spending exactly the given inputs (probe)
-    fn build_spending(&mut self, coins: Vec<CoinIn>) -> Option<(ArcPoolTx, Arc<TxInfo>)> {
+    fn build_spending(&mut self, mut coins: Vec<CoinIn>) -> Option<(ArcPoolTx, Arc<TxInfo>)> {
         if coins.is_empty() {
             return None;
+        }
+        for c in coins.iter_mut() {
+            c.predicate = chance(&mut self.rng, 50);
         }
         let spec = TxSpec {
             kind: Kind::Script,
@@ -871,6 +942,7 @@ impl Hist {
             change_to: None,
             variable: false,
             expiration: None,
+            shuffle: self.rng.r#gen(),
         };
         let tx = self.fac.build(&spec).ok()?;
         let info = Arc::new(TxInfo::of(&tx));
@@ -937,6 +1009,7 @@ impl Hist {
                             .enumerate()
                             .filter_map(|(i, o)| match o {
                                 Out::Coin(f) => Some(CoinIn {
+predicate: false,
                                     utxo: UtxoId::new(id, i as u16),
                                     f: *f,
                                 }),
@@ -955,7 +1028,7 @@ impl Hist {
                         && let Some((u, f)) = p.coins.choose(&mut self.rng).cloned()
                         && f.asset == AssetId::BASE
                         && let Some((tx, info)) =
-                            self.build_spending(vec![CoinIn { utxo: u, f }])
+                            self.build_spending(vec![CoinIn { predicate: false, utxo: u, f }])
                     {
                         return Op::Insert { tx, info, why };
                     }
@@ -1003,6 +1076,7 @@ impl Hist {
                     .enumerate()
                     .filter_map(|(i, o)| match o {
                         Out::Coin(f) => Some(CoinIn {
+predicate: false,
                             utxo: UtxoId::new(pinfo.id, i as u16),
                             f: *f,
                         }),
@@ -1047,10 +1121,21 @@ impl Hist {
             _ => self.rng.gen_range(250..=1800),
         };
         let mut excluded = Vec::new();
-        if chance(&mut self.rng, 25) {
+        if chance(&mut self.rng, 35) {
             let alpha = Self::contract_alphabet();
-            for _ in 0..self.rng.gen_range(1..=2) {
-                excluded.push(*alpha.choose(&mut self.rng).expect("nonempty"));
+            // contracts that pooled transactions really touch, at any input position
+            let used: Vec<ContractId> = self
+                .snap
+                .txs
+                .values()
+                .flat_map(|t| t.contracts.iter().copied())
+                .collect();
+            for _ in 0..self.rng.gen_range(1..=3) {
+                if !used.is_empty() && chance(&mut self.rng, 70) {
+                    excluded.push(*used.choose(&mut self.rng).expect("nonempty"));
+                } else {
+                    excluded.push(*alpha.choose(&mut self.rng).expect("nonempty"));
+                }
             }
             excluded.sort();
             excluded.dedup();
@@ -1079,7 +1164,8 @@ impl Hist {
                 Some(cm)
                     if cm.sender == m.sender
                         && cm.recipient == m.recipient
-                        && cm.amount == m.amount => {}
+                        && cm.amount == m.amount
+                        && cm.data == m.data => {}
                 _ => return false,
             }
         }
@@ -1216,7 +1302,10 @@ impl Hist {
                 Out::ContractCreated(c) => {
                     v.push((u, Output::contract_created(*c, Default::default())))
                 }
-                _ => {}
+                Out::Variable => {
+                    v.push((u, Output::variable(txgen::owner(1), 10, AssetId::BASE)))
+                }
+                Out::Contract => {}
             }
         }
         v
